@@ -822,7 +822,17 @@ def grammar_diff_layer(ctx, grammar_parse, n):
                              meta={'no_failing_input': True})
 
 
+# separators where TatSu's gathers accept or reject them (a corpus of minimised past disagreements runs first)
+SEPARATOR_CORPUS = ['SELECT f(, 1)', 'SELECT f(,)', 'SELECT f(, 1, 2)', 'SELECT f(1, , 2)', 'SELECT f(1,)', 'SELECT (, 1, 2)',
+                    'SELECT 1 IN (, 1, 2)', 'SELECT a FROM #t GROUP BY , a', 'SELECT , a', 'SELECT a ORDER BY , a', 'SELECT f()',
+                    'SELECT f( , )', 'SELECT a PIVOT BY , a, b', 'SELECT coalesce(, a)', 'SELECT (1, NULL, 2)', 'SELECT (1, , 2)',
+                    'SELECT (1, 2,)', 'SELECT f(g(, 1), h(,))', 'SELECT NULL(, FALSE, 1)', 'SELECT count(, *)', 'SELECT f(, *)']
+
+
 def run(ctx):
+    for text in SEPARATOR_CORPUS:
+        ctx.count('separator-corpus')
+        check_text(ctx, 'separators', text)
     grammar_parse = grammar_layer(ctx)
     if grammar_parse is not None:
         grammar_diff_layer(ctx, grammar_parse, 600 if ctx.thorough() else 150)
